@@ -1,5 +1,6 @@
 // Shared data universe for the query-level grids (C05..C08, C11, C15, C19).  JSON output: one record per row, values exact.
-use sqlgrep::executor::OutputFormat;
+use sqlgrep::executor::{OutputFormat, OutputPrinter};
+use sqlgrep::execution::execution_engine::ExecutionConfig;
 
 pub const T: &str = "CREATE TABLE t(line = '^k=(\\\\w+) v=(-?[0-9]*)$', line[1] => k TEXT, line[2] => v INT);";
 /// the same table with a NOT NULL column: `k=b v=` is then not admitted
@@ -49,3 +50,25 @@ pub const AGGREGATE: [&str; 6] = [
     "SELECT v, COUNT(DISTINCT k) AS n FROM t WHERE v IS NOT NULL GROUP BY v",
     "SELECT k, MAX(v) + 1 AS top FROM t GROUP BY k HAVING MAX(v) >= 1",
 ];
+
+/// what follow mode shows for each fed line (FollowFileExecutor: ExecutionEngine::execute(line, &ExecutionConfig::default()), the
+/// returned table printed): Some(records) when something was shown for that line, None when nothing was
+pub fn incremental(definition: &str, query: &str, lines: &[&str]) -> Result<Vec<Option<Vec<String>>>, String> {
+    let tables = tables(definition)?;
+    let statement = parsing::parse(query).map_err(|e| format!("{}", e))?;
+    let mut engine = ExecutionEngine::new(&tables, &statement);
+    let mut shown = Vec::new();
+    for line in lines {
+        let output = engine.execute(line.to_string(), &ExecutionConfig::default()).map_err(|e| format!("error at line {:?}: {}", line, e))?;
+        match output.result_row {
+            Some(row) => {
+                let mut printer = OutputPrinter::with_printer(Captured { lines: Vec::new() }, OutputFormat::Json);
+                printer.print(&row, true);
+                shown.push(Some(printer.printer().lines.clone()));
+            }
+            None => shown.push(None),
+        }
+        if output.reached_limit { break; }
+    }
+    Ok(shown)
+}
